@@ -40,6 +40,7 @@ struct Th {
     const void *obj = nullptr, *obj2 = nullptr;
     const char *label = nullptr;
     bool woken = false, timed = false, timedout = false;
+    int64_t deadline_ms = 0;   // timed wait: its absolute deadline on the virtual clock
     int held = 0;
     const std::function<bool()> *pred = nullptr;
     pthread_t real{};
@@ -179,7 +180,11 @@ void dispatch_inner(Th *me) {
             case Decision::TIMEOUT: {
                 Th *w = g_threads.at(d.thread);
                 if (w->pending == OP_CWAKE && !w->woken) {
-                    if (d.kind == Decision::TIMEOUT) w->timedout = true;
+                    if (d.kind == Decision::TIMEOUT) {
+                        w->timedout = true;
+                        // the caller re-reads the clock to tell a time-out from a spurious wake-up: time has passed
+                        if (w->deadline_ms >= g_clock_ms) g_clock_ms = w->deadline_ms + 1;
+                    }
                     w->woken = true;
                     auto &ws = g_waiters[w->obj];
                     for (size_t i = 0; i < ws.size(); ++i)
@@ -243,8 +248,9 @@ void *trampoline(void *p) {
     return ret;
 }
 
-int do_cond_wait(pthread_cond_t *c, pthread_mutex_t *m, bool timed) {
+int do_cond_wait(pthread_cond_t *c, pthread_mutex_t *m, bool timed, const struct timespec *ts = nullptr) {
     Th *me = tl_me;
+    me->deadline_ms = ts ? (int64_t) ts->tv_sec * 1000 + ts->tv_nsec / 1000000 - kEpochMs : 0;
     set_pending(me, OP_CWAIT, c, m);
     dispatch(me);
     // atomic release + enqueue
@@ -434,13 +440,13 @@ int pthread_cond_wait(pthread_cond_t *c, pthread_mutex_t *m) {
 int pthread_cond_timedwait(pthread_cond_t *c, pthread_mutex_t *m, const struct timespec *ts) {
     static int (*real)(pthread_cond_t *, pthread_mutex_t *, const struct timespec *) = nullptr;
     if (!managed()) return real_fn(real, "pthread_cond_timedwait")(c, m, ts);
-    return do_cond_wait(c, m, true);
+    return do_cond_wait(c, m, true, ts);
 }
 
 int pthread_cond_clockwait(pthread_cond_t *c, pthread_mutex_t *m, clockid_t clk, const struct timespec *ts) {
     static int (*real)(pthread_cond_t *, pthread_mutex_t *, clockid_t, const struct timespec *) = nullptr;
     if (!managed()) return real_fn(real, "pthread_cond_clockwait")(c, m, clk, ts);
-    return do_cond_wait(c, m, true);
+    return do_cond_wait(c, m, true, ts);
 }
 
 int pthread_cond_signal(pthread_cond_t *c) {
